@@ -57,7 +57,7 @@ def layer_dags(draw, max_layers=5, min_layers=0, hooks='any', faults=None, nie=F
 
 
 @st.composite
-def tests_list(draw, kinds=ALL_KINDS, min_tests=1, max_tests=4, excs=SIMPLE_EXCS, weights_good=50):
+def tests_list(draw, kinds=ALL_KINDS, min_tests=1, max_tests=4, excs=SIMPLE_EXCS, weights_good=50, sub_skip=False):
     n = draw(st.integers(min_tests, max_tests))
     names = draw(st.permutations(['test_a', 'test_b', 'test_c', 'test_d', 'test_e', 'test_f', 'test_g', 'test_h']))[:n]
     good = [k for k in kinds if k in GOOD_KINDS]
@@ -73,7 +73,8 @@ def tests_list(draw, kinds=ALL_KINDS, min_tests=1, max_tests=4, excs=SIMPLE_EXCS
                  'subtests'):
             t['exc'] = draw(st.sampled_from(excs))
         if k == 'subtests':
-            t['sub'] = draw(st.lists(st.sampled_from([['pass'], ['fail'], ['error']]), min_size=1, max_size=4))
+            pool = [['pass'], ['fail'], ['error']] + ([['skip']] if sub_skip else [])
+            t['sub'] = draw(st.lists(st.sampled_from(pool), min_size=1, max_size=4))
         out.append(t)
     return out
 
@@ -81,7 +82,7 @@ def tests_list(draw, kinds=ALL_KINDS, min_tests=1, max_tests=4, excs=SIMPLE_EXCS
 @st.composite
 def suite_tree(draw, nlayers, depth=2, kinds=ALL_KINDS, max_tests=4, levels=False, layer_decl=60,
                excs=SIMPLE_EXCS, case_counter=None, inst_attrs=False, explicit_unit=False, weights_good=50,
-               max_children=3):
+               max_children=3, sub_skip=False):
     """nested suites; 'layer'/'level' present or absent at each depth, on the case class, on the instance"""
     counter = case_counter if case_counter is not None else [0]
 
@@ -97,7 +98,8 @@ def suite_tree(draw, nlayers, depth=2, kinds=ALL_KINDS, max_tests=4, levels=Fals
     def case():
         counter[0] += 1
         node = {'t': 'c', 'name': 'TC%d' % counter[0],
-                'tests': draw(tests_list(kinds=kinds, max_tests=max_tests, excs=excs, weights_good=weights_good))}
+                'tests': draw(tests_list(kinds=kinds, max_tests=max_tests, excs=excs, weights_good=weights_good,
+                                         sub_skip=sub_skip))}
         decl(node)
         if inst_attrs:
             for t in node['tests']:
@@ -125,7 +127,7 @@ def suite_tree(draw, nlayers, depth=2, kinds=ALL_KINDS, max_tests=4, levels=Fals
 def worlds(draw, max_layers=4, min_layers=0, hooks='any', faults=None, nie=0, layer_kinds=('class', 'inst'),
            kinds=ALL_KINDS, max_modules=2, depth=2, max_tests=4, levels=False, excs=SIMPLE_EXCS,
            inst_attrs=False, explicit_unit=False, weights_good=50, layer_decl=60, max_children=3,
-           fault_excs=SIMPLE_EXCS):
+           fault_excs=SIMPLE_EXCS, sub_skip=False):
     layers = draw(layer_dags(max_layers=max_layers, min_layers=min_layers, hooks=hooks, faults=faults, nie=nie,
                              kinds=layer_kinds, fault_excs=fault_excs))
     nmod = draw(st.integers(1, max_modules))
@@ -136,7 +138,7 @@ def worlds(draw, max_layers=4, min_layers=0, hooks='any', faults=None, nie=0, la
         modules.append({'name': nm, 'tree': draw(suite_tree(
             len(layers), depth=depth, kinds=kinds, max_tests=max_tests, levels=levels, excs=excs,
             case_counter=counter, inst_attrs=inst_attrs, explicit_unit=explicit_unit,
-            weights_good=weights_good, layer_decl=layer_decl, max_children=max_children))})
+            weights_good=weights_good, layer_decl=layer_decl, max_children=max_children, sub_skip=sub_skip))})
     return {'layers': layers, 'modules': modules}
 
 
